@@ -48,9 +48,12 @@ type c14Case struct {
 	// PadTo > 0: every payload is extended at run time to this many octets with a filler derived from its index
 	// (megabytes of traffic without megabytes of case)
 	PadTo int `json:"pad_to,omitempty"`
+	// Exact: message index -> exact length of the message as handed to the producer (the payload is extended at
+	// run time): lengths on and next to the 8-, 12-, 16- and 17-bit marks
+	Exact map[int]int `json:"exact,omitempty"`
 }
 
-const c14Rule = "case = raw-socket producer configuration (tcp | udp, retry-max 0..4) + 1..300 messages (1 octet..48 KiB; JSON-like text rich in %d %s %% %! verbs, quotes, UTF-8 and arbitrary non-newline octets, each tagged with its index) " +
+const c14Rule = "case = raw-socket producer configuration (tcp | udp, retry-max 0..4) + 1..300 messages (1 octet..48 KiB, in a quarter of the tcp cases some extended to exactly 255..131073 octets on and next to the 8-, 12-, 16- and 17-bit marks; JSON-like text rich in %d %s %% %! verbs, quotes, UTF-8 and arbitrary non-newline octets, each tagged with its index) " +
 	"+ fault plan (tcp): none, or 1..3 breaks (after message i the sink closes gracefully | resets the connection, optionally stops listening for a drawn downtime), or a stall plan (the sink stops reading while 30..60 messages of 48 KiB follow, so that a write blocks half-way, then resets), or a slow-sink plan (the sink stops reading for 0.3..5.5 s (thorough: ..31 s) and then goes on, while 1200..2500 messages keep the producer's queue full: the no-fault oracle applies); with a fault plan the producer may have been up and idle for 0.4..5.5 s (thorough: ..31 s) before traffic starts; the real producer.NewProducer(\"rawSocket\").Run() writes to a sink owned by the harness; " +
 	"oracle without fault = the sink's byte stream is exactly concat(message + newline) (udp: one datagram per message, paced); with faults (every break index is a fault point) = the complete lines received over all connections are " +
 	"byte-identical input messages with strictly increasing indices (no duplicate, no corruption, no reordering), and once the sink is reachable again probe messages handed over one at a time resume delivery within retry-max+4 probes with nothing missing afterwards; " +
@@ -101,6 +104,12 @@ func genC14(t *rapid.T) c14Case {
 		}
 		total += len(p)
 		c.Msgs = append(c.Msgs, p)
+	}
+	if c.Protocol == "tcp" && rapid.IntRange(0, 3).Draw(t, "exactlens") == 0 {
+		c.Exact = map[int]int{}
+		for k, ne := 0, rapid.IntRange(1, 3).Draw(t, "nexact"); k < ne; k++ {
+			c.Exact[rapid.IntRange(0, len(c.Msgs)-1).Draw(t, "exactidx")] = rapid.SampledFrom([]int{255, 256, 257, 4095, 4096, 4097, 65535, 65536, 65537, 131071, 131072, 131073}).Draw(t, "exactlen")
+		}
 	}
 	if c.Protocol == "tcp" && rapid.IntRange(0, 11).Draw(t, "slowplan") == 0 {
 		// a slow sink: it stops reading for a while, then goes on; enough messages to keep the queue (1000 slots) full
@@ -420,6 +429,15 @@ func runC14(c *c14Case) (v verdict, sig string, err error) {
 			m = pm
 		}
 		wireMsgs[i] = c14Message(i, m)
+		if want := c.Exact[i]; want > len(wireMsgs[i]) && want <= 1<<20 {
+			pm := make([]byte, len(m)+want-len(wireMsgs[i]))
+			copy(pm, m)
+			for k := len(m); k < len(pm); k++ {
+				pm[k] = "abcdefghijklmnopqrstuvwxyz0123456789%"[(k+i)%37]
+			}
+			wireMsgs[i] = c14Message(i, pm)
+			v.label(true, "message-of-exact-boundary-length")
+		}
 	}
 	brkAt := map[int]c14Break{}
 	for _, b := range c.Breaks {
